@@ -283,6 +283,9 @@ fn run_inner(p: &Params) -> Run {
         }
     }
 
+    // --- long flat inputs
+    long_inputs(&mut run, p.n(20_000, 100_000));
+
     // --- token soups over the SQL vocabulary, random Unicode
     for _ in 0..p.n(450, 20000) {
         check_text(&mut run, &gen_soup(&mut rng), "soup", Expect::Any);
@@ -324,6 +327,58 @@ fn token_prefixes(run: &mut Run, tokens: &[ParserToken], text: &str) {
         v.push(e);
         case_tokens(run, v, "tok-prefix", &format!("first {} tokens of {}", k, short(text)));
     }
+}
+
+// ---------------------------------------------------------------------------------------------
+// long FLAT inputs ("any length"): lists of many elements are not nested, so no depth bound applies to them. Parsed in
+// a child process on a thread with the stack of an ordinary main thread (8 MiB) — a parser that recurses once per list
+// element overflows the machine stack there, which aborts the process (not catchable in-process).
+// ---------------------------------------------------------------------------------------------
+
+pub const LONG_KINDS: usize = 9;
+
+pub fn long_flat(kind: usize, n: usize) -> String {
+    let list = |item: &dyn Fn(usize) -> String, sep: &str| (0..n).map(|i| item(i)).collect::<Vec<_>>().join(sep);
+    match kind % LONG_KINDS {
+        0 => format!("SELECT x FROM t WHERE x IN ({})", list(&|i| i.to_string(), ", ")),
+        1 => format!("SELECT x FROM t WHERE x NOT IN ({})", list(&|i| format!("'s{}'", i), ",")),
+        2 => format!("SELECT array[{}] FROM t", list(&|i| i.to_string(), ", ")),
+        3 => format!("SELECT greatest({}) FROM t", list(&|i| format!("x + {}", i), ", ")),
+        4 => format!("SELECT {} FROM t", list(&|i| format!("x AS c{}", i), ", ")),
+        5 => format!("SELECT COUNT(*) FROM t GROUP BY {}", list(&|i| format!("c{}", i), ", ")),
+        6 => format!("CREATE TABLE t(line = '(.*)', {});", list(&|i| format!("line[1] => c{} TEXT", i), ", ")),
+        7 => format!("CREATE TABLE t(line = '(.*)', {} => ts TEXT[]);", list(&|_| "line[1]".to_owned(), ", ")),
+        _ => (0..n / 20 + 1).map(|i| format!("CREATE TABLE t{}(line = '(.*)', line[1] => x TEXT);", i)).collect::<Vec<_>>().join("\n"),
+    }
+}
+
+/// `harness c14long <kind> <n>`: prints `ok` / `err` (either is a fine answer), or dies
+pub fn long_child(kind: usize, n: usize) {
+    let text = long_flat(kind, n);
+    let h = std::thread::Builder::new().stack_size(8 << 20).spawn(move || {
+        match sqlgrep::parsing::parse(&text) { Ok(_) => "ok", Err(_) => "err" }
+    }).expect("spawn");
+    match h.join() { Ok(w) => println!("{}", w), Err(_) => println!("panic") }
+}
+
+fn long_inputs(run: &mut Run, n: usize) {
+    let exe = match std::env::current_exe() { Ok(e) => e, Err(_) => { run.count("long:no-exe"); return; } };
+    for kind in 0..LONG_KINDS {
+        let out = std::process::Command::new(&exe).args(["c14long", &kind.to_string(), &n.to_string()]).output();
+        run.oracle_checks += 1;
+        let desc = format!("{} … ({} elements; `harness c14long {} {}`)", long_flat(kind, 3), n, kind, n);
+        match out {
+            Err(_) => run.count("long:spawn-failed"),
+            Ok(o) => {
+                let said = String::from_utf8_lossy(&o.stdout).trim().to_owned();
+                run.count(&format!("long:{}:{}", kind, if said.is_empty() { "died" } else { said.as_str() }));
+                if !o.status.success() || said == "panic" || said.is_empty() {
+                    run.fail(desc, "long-flat-input-crashes", format!("parsing a flat list of {} elements on an 8 MiB stack ended with {:?} (stdout {:?})", n, o.status, said));
+                }
+            }
+        }
+    }
+    run.notes.push(format!("long flat inputs: {} list kinds of {} elements each parsed in a child process on an 8 MiB stack", LONG_KINDS, n));
 }
 
 pub fn run(p: &Params) -> Run {
